@@ -57,6 +57,7 @@ def grammar(tier):
     vals += [("rot_single", R.from_rotvec((0.1, 0.2, 0.3))), ("rot_len1", R.from_rotvec([(0.1, 0.2, 0.3)])),
              ("rot_len3", R.from_rotvec([(0.1, 0.2, 0.3), (0, 0, 1), (1, 0, 0)])),
              ("ff_ok", _ff_ok), ("ff_badsig", _ff_badsig), ("ff_badshape", _ff_badshape), ("ff_list", _ff_list)]
+    vals += [(f"ffgen_{b}_{h}", ff_gen(b, h)) for b in FF_BEHAVIOURS for h in FF_BEHAVIOURS]
     # strings for enumerations
     vals += [("left", "left"), ("right", "right"), ("Left", "Left"), ("up", "up")]
     return vals
@@ -78,6 +79,35 @@ def _ff_list(field, observers):
     return [[0.0, 0.0, 0.0]] * len(observers)
 
 
+FF_BEHAVIOURS = ["ok", "none", "badshape", "list", "scalar", "shape3", "n2"]
+
+
+def _ff_out(kind, observers):
+    n = len(observers)
+    return {"ok": lambda: np.array(observers) * 2.0, "none": lambda: None, "badshape": lambda: np.zeros((n + 1, 3)),
+            "list": lambda: [[0.0, 0.0, 0.0]] * n, "scalar": lambda: 1.5, "shape3": lambda: np.zeros(3),
+            "n2": lambda: np.zeros((n, 2))}[kind]()
+
+
+def _make_ff(bk, hk):
+    def f(field, observers):
+        return _ff_out(bk if field == "B" else hk, observers)
+
+    f.behaviour = (bk, hk)
+    f.__name__ = f.__qualname__ = f"_ffgen_{bk}_{hk}"   # module-level name: picklable by reference
+    return f
+
+
+for _b in FF_BEHAVIOURS:
+    for _h in FF_BEHAVIOURS:
+        globals()[f"_ffgen_{_b}_{_h}"] = _make_ff(_b, _h)
+
+
+def ff_gen(bk, hk):
+    """field function behaving as bk for 'B' and as hk for 'H' (one module-level function object per pair)"""
+    return globals()[f"_ffgen_{bk}_{hk}"]
+
+
 def is_rot(v):
     from scipy.spatial.transform import Rotation as R
 
@@ -89,7 +119,14 @@ def orient(v):
 
 
 def fieldfunc(v):
-    return v is None or v is _ff_ok
+    if v is None or v is _ff_ok:
+        return True
+    beh = getattr(v, "behaviour", None)
+    if beh is not None:
+        if beh == ("none", "none"):
+            return AMBIG      # a function that provides no field at all: not settled by the documentation
+        return all(b in ("ok", "none") for b in beh)
+    return False
 
 
 def _tup(v):
@@ -282,7 +319,7 @@ def check_one(task):
                 o = C(**kw2)
                 before = None
             elif via == "setter":
-                o = C(**kw)
+                o = C(**(base if attr in ("polarization", "magnetization") else kw))   # a complete, valid object
                 before = snap(o)
                 setattr(o, attr, caller)
             else:
@@ -369,19 +406,22 @@ def check_one(task):
                     if not np.array_equal(rb2.reshape(a.shape), a):
                         problems.append(("later-mutation-of-input-visible", via))
         # the accepted object must work (or ask for missing input)
-        try:
-            with common.time_limit(20):
-                if cls != "Sensor":
-                    B = o.getB((7.0, 8.0, 9.0))
-                else:
-                    B = o.getB(C0())
-            if not np.all(np.isfinite(B)):
-                problems.append(("getB-nonfinite", via))
-        except MagpylibMissingInput:
-            if v is not None and attr != "field_func":
-                problems.append(("getB-missing-input-for-set-attribute", via))
-        except Exception as e:
-            problems.append((f"accepted-object-fails-later-{type(e).__name__}", via))
+        for fname in ("getB", "getH"):
+            try:
+                with common.time_limit(20):
+                    if cls != "Sensor":
+                        B = getattr(o, fname)([(7.0, 8.0, 9.0), (-3.0, 2.0, 5.0)])
+                    else:
+                        B = getattr(o, fname)(C0())
+                if not np.all(np.isfinite(B)):
+                    problems.append((f"{fname}-nonfinite", via))
+                if cls != "Sensor" and np.shape(B)[-2:] != (2, 3):
+                    problems.append((f"{fname}-wrong-shape-{np.shape(B)}", via))
+            except MagpylibMissingInput:
+                if v is not None and attr != "field_func":
+                    problems.append((f"{fname}-missing-input-for-set-attribute", via))
+            except Exception as e:
+                problems.append((f"accepted-object-fails-later-{type(e).__name__}", via))
     if valid and results.get("ctor") == "ok" and results.get("setter") == "ok":
         pass
     if (cls, attr) not in CTOR_ONLY and len({results.get("ctor"), results.get("setter")}) > 1:
